@@ -8,6 +8,7 @@ import (
 
 	"github.com/deadsy/sdfx/render"
 	"github.com/deadsy/sdfx/sdf"
+	v2 "github.com/deadsy/sdfx/vec/v2"
 	v3 "github.com/deadsy/sdfx/vec/v3"
 	"pgregory.net/rapid"
 
@@ -256,9 +257,18 @@ func TestRandomFields(t *testing.T) {
 		}
 		lo := v3.Vec{X: c.nodes.X[0], Y: c.nodes.Y[0], Z: c.nodes.Z[0]}
 		hi := v3.Vec{X: c.nodes.X[nx-1], Y: c.nodes.Y[ny-1], Z: c.nodes.Z[nz-1]}
-		ts := render.ToTriangles(f.l, r.mk(n))
+		// the uniform renderer takes any implicit function with the right sign: the same field
+		// amplified (values far larger than a cell, as x^2+y^2+z^2-1 or a squashed shape gives)
+		var fld sdf.SDF3 = f.l
+		amp := 1.0
+		if r.name == "uniform" {
+			amp = rapid.SampledFrom([]float64{1, 1, 4, 30, 1000}).Draw(t, "amplification")
+			fld = lat.Scaled3{S: f.l, K: amp}
+		}
+		rec.Add(fmt.Sprintf("random-field:amplification=%g", amp), 1)
+		ts := render.ToTriangles(fld, r.mk(n))
 		checkMesh(rec, t, func(key, msg string) {
-			rec.Violation(t, key, "%s renderer, random field n=%d (%d negative nodes): %s", r.name, n, negs, msg)
+			rec.Violation(t, key, "%s renderer, random field n=%d (%d negative nodes, amplified x%g): %s", r.name, n, negs, amp, msg)
 		}, r.name, ts, c.step, anyNeg, lo, hi)
 		rec.Case(len(ts) > 0, ev.Key(r.name, n, f.l.V), "random-field:"+r.name, fmt.Sprintf("random-field:n=%d", n))
 		rec.Sample("random-field:"+r.name, map[string]any{"renderer": r.name, "n": n, "negative_nodes": negs, "triangles": len(ts)})
@@ -290,14 +300,20 @@ func TestScenes(t *testing.T) {
 		cells := rapid.IntRange(3, ev.Pick(24, 48)).Draw(t, "cells")
 		// enlarge the box a little and optionally shift it by a sub-cell amount
 		h := sz.MaxComponent() / float64(cells)
-		margin := rapid.SampledFrom([]float64{0.02, 0.3, 1, 1.5}).Draw(t, "margin") * h
+		// margin 0: the shape in its own bounding box (flat faces and caps flush with it)
+		margin := rapid.SampledFrom([]float64{0, 0, 0.02, 0.3, 1, 1.5}).Draw(t, "margin") * h
 		shift := v3.Vec{X: g.F(-0.5, 0.5).Draw(t, "shx") * h, Y: g.F(-0.5, 0.5).Draw(t, "shy") * h, Z: g.F(-0.5, 0.5).Draw(t, "shz") * h}
-		if rapid.Bool().Draw(t, "noshift") {
+		if rapid.Bool().Draw(t, "noshift") || margin == 0 {
 			shift = v3.Vec{}
 		}
 		m := margin + math.Max(math.Abs(shift.X), math.Max(math.Abs(shift.Y), math.Abs(shift.Z)))
 		nb := sdf.Box3{Min: bb.Min.SubScalar(m).Add(shift), Max: bb.Max.AddScalar(m).Add(shift)}
-		rb := &lat.Recorder3{S: lat.Rebox3{S: s, BB: nb}}
+		amp := 1.0
+		if r.name == "uniform" {
+			// any positive multiple of the field has the same solid (see TestRandomFields)
+			amp = rapid.SampledFrom([]float64{1, 1, 1, 5, 100}).Draw(t, "amplification")
+		}
+		rb := &lat.Recorder3{S: lat.Rebox3{S: lat.Scaled3{S: s, K: amp}, BB: nb}}
 		ts := render.ToTriangles(rb, r.mk(cells))
 		ax := lat.AxesOf3(rb.Pts, 1e-9*h)
 		if len(ax.X) < 2 || len(ax.Y) < 2 || len(ax.Z) < 2 {
@@ -318,9 +334,11 @@ func TestScenes(t *testing.T) {
 		// on the box itself (a 14x14 grid on each face plus every sampled point on or outside the box),
 		// not on the lattice the renderer chose: shapes whose box does not enclose them (the C01
 		// findings) are out of scope here and counted.
+		// (a solid that touches its box - the faces of a Box3D - satisfies the precondition; one that
+		// continues beyond it does not: the probe surface is the box inflated by 1e-6 of a cell)
 		insideBox := func(p v3.Vec) bool {
-			e := 1e-9 * h
-			return p.X > nb.Min.X+e && p.Y > nb.Min.Y+e && p.Z > nb.Min.Z+e && p.X < nb.Max.X-e && p.Y < nb.Max.Y-e && p.Z < nb.Max.Z-e
+			e := 1e-6 * h
+			return p.X < nb.Max.X+e && p.Y < nb.Max.Y+e && p.Z < nb.Max.Z+e && p.X > nb.Min.X-e && p.Y > nb.Min.Y-e && p.Z > nb.Min.Z-e
 		}
 		reaches := false
 		for i, p := range rb.Pts {
@@ -329,14 +347,15 @@ func TestScenes(t *testing.T) {
 			}
 		}
 		const G = 14
-		nsz := nb.Size()
+		pb := sdf.Box3{Min: nb.Min.SubScalar(1e-6 * h), Max: nb.Max.AddScalar(1e-6 * h)}
+		nsz := pb.Size()
 		for i := 0; i <= G && !reaches; i++ {
 			for j := 0; j <= G && !reaches; j++ {
 				u, w := float64(i)/G, float64(j)/G
 				for _, p := range []v3.Vec{
-					{X: nb.Min.X, Y: nb.Min.Y + u*nsz.Y, Z: nb.Min.Z + w*nsz.Z}, {X: nb.Max.X, Y: nb.Min.Y + u*nsz.Y, Z: nb.Min.Z + w*nsz.Z},
-					{X: nb.Min.X + u*nsz.X, Y: nb.Min.Y, Z: nb.Min.Z + w*nsz.Z}, {X: nb.Min.X + u*nsz.X, Y: nb.Max.Y, Z: nb.Min.Z + w*nsz.Z},
-					{X: nb.Min.X + u*nsz.X, Y: nb.Min.Y + w*nsz.Y, Z: nb.Min.Z}, {X: nb.Min.X + u*nsz.X, Y: nb.Min.Y + w*nsz.Y, Z: nb.Max.Z}} {
+					{X: pb.Min.X, Y: pb.Min.Y + u*nsz.Y, Z: pb.Min.Z + w*nsz.Z}, {X: pb.Max.X, Y: pb.Min.Y + u*nsz.Y, Z: pb.Min.Z + w*nsz.Z},
+					{X: pb.Min.X + u*nsz.X, Y: pb.Min.Y, Z: pb.Min.Z + w*nsz.Z}, {X: pb.Min.X + u*nsz.X, Y: pb.Max.Y, Z: pb.Min.Z + w*nsz.Z},
+					{X: pb.Min.X + u*nsz.X, Y: pb.Min.Y + w*nsz.Y, Z: pb.Min.Z}, {X: pb.Min.X + u*nsz.X, Y: pb.Min.Y + w*nsz.Y, Z: pb.Max.Z}} {
 					if s.Evaluate(p) < 0 {
 						reaches = true
 					}
@@ -370,7 +389,7 @@ func TestScenes(t *testing.T) {
 		rep := checkMesh(rec, t, func(key, msg string) {
 			rec.Violation(t, key, "%s renderer, %d cells, scene %s box %v: %s", r.name, cells, n, nb, msg)
 		}, r.name, ts, step, anyNeg, lo, hi)
-		rec.Case(len(ts) > 0, ev.Key(r.name, cells, n.String(), margin, shift), "scene:"+r.name)
+		rec.Case(len(ts) > 0, ev.Key(r.name, cells, n.String(), margin, shift, amp), "scene:"+r.name, fmt.Sprintf("scene:own-bounding-box=%v", margin == 0), fmt.Sprintf("scene:amplification=%g", amp))
 		rec.Add("scene-triangles", int64(len(ts)))
 		rec.Sample("scene:"+r.name, map[string]any{"renderer": r.name, "cells": cells, "program": n.String(), "triangles": len(ts), "volume": rep.Volume})
 	})
@@ -437,6 +456,89 @@ func TestCornerSlivers(t *testing.T) {
 		}, r.name, ts, c.step, true, lo, hi)
 		rec.Case(len(ts) > 0, ev.Key(r.name, n, desc), "corner-sliver:"+r.name, fmt.Sprintf("corner-sliver:level=%d", L), fmt.Sprintf("corner-sliver:depth=1e%d", int(math.Floor(math.Log10(eps)))))
 		rec.Sample("corner-sliver:"+r.name, map[string]any{"renderer": r.name, "n": n, "scene": desc, "triangles": len(ts)})
+	})
+}
+
+// ---------------------------------------------------------------------------
+// flush faces: solids whose flat faces coincide with their own bounding box (boxes, cylinder caps,
+// extrusions), rendered in that box at sizes that are (nearly) whole numbers of cells - the padding
+// the renderers add around the box is all that keeps those faces inside the lattice.
+
+func TestFlushFaces(t *testing.T) {
+	rec := ev.Get()
+	rapid.Check(t, func(t *rapid.T) {
+		r := rapid.SampledFrom(renderers).Draw(t, "renderer")
+		cells := rapid.IntRange(3, ev.Pick(40, 80)).Draw(t, "cells")
+		// sizes as a designer types them: one or two decimals, or an exact multiple of the cell size
+		dim := func(l string) float64 {
+			switch rapid.IntRange(0, 2).Draw(t, l+".how") {
+			case 0:
+				return float64(rapid.IntRange(1, 200).Draw(t, l+".tenths")) / 10
+			case 1:
+				return float64(rapid.IntRange(1, 2000).Draw(t, l+".hundredths")) / 100
+			}
+			return float64(rapid.IntRange(1, 30).Draw(t, l+".int"))
+		}
+		var s sdf.SDF3
+		var err error
+		desc := ""
+		switch rapid.SampledFrom([]string{"box", "box", "cube", "cylinder", "extrusion"}).Draw(t, "solid") {
+		case "box":
+			v := v3.Vec{X: dim("x"), Y: dim("y"), Z: dim("z")}
+			s, err = sdf.Box3D(v, 0)
+			desc = fmt.Sprintf("Box3D(%v)", v)
+		case "cube":
+			a := dim("a")
+			s, err = sdf.Box3D(v3.Vec{X: a, Y: a, Z: a}, 0)
+			desc = fmt.Sprintf("Box3D cube %v", a)
+		case "cylinder":
+			hgt, rad := dim("h"), dim("r")
+			s, err = sdf.Cylinder3D(hgt, rad, 0)
+			desc = fmt.Sprintf("Cylinder3D(%v,%v,0)", hgt, rad)
+		default:
+			a, b, hgt := dim("a"), dim("b"), dim("h")
+			s = sdf.Extrude3D(sdf.Box2D(v2.Vec{X: a, Y: b}, 0), hgt)
+			desc = fmt.Sprintf("Extrude3D(Box2D(%v,%v),%v)", a, b, hgt)
+		}
+		if err != nil {
+			t.Fatalf("constructor refused %s: %v", desc, err)
+		}
+		if c := rapid.IntRange(0, 2).Draw(t, "placed"); c > 0 {
+			off := v3.Vec{X: dim("ox"), Y: -dim("oy"), Z: dim("oz")}
+			s = sdf.Transform3D(s, sdf.Translate3d(off))
+			desc += fmt.Sprintf(" at %v", off)
+		}
+		sz := s.BoundingBox().Size()
+		if sz.MaxComponent() > 60*sz.MinComponent() {
+			rec.Case(false, "", "flush:too-thin")
+			return
+		}
+		rb := &lat.Recorder3{S: s}
+		ts := render.ToTriangles(rb, r.mk(cells))
+		h := sz.MaxComponent() / float64(cells)
+		ax := lat.AxesOf3(rb.Pts, 1e-9*h)
+		if len(ax.X) < 2 || len(ax.Y) < 2 || len(ax.Z) < 2 {
+			// the octree pruned its top cube: a solid thinner than the lattice resolves (completeness is C06's subject)
+			rec.Case(false, "", "flush:unresolved")
+			return
+		}
+		step := (ax.X[len(ax.X)-1] - ax.X[0]) / float64(len(ax.X)-1)
+		if r.name == "octree" {
+			step *= 2
+		}
+		lo := v3.Vec{X: ax.X[0], Y: ax.Y[0], Z: ax.Z[0]}
+		hi := v3.Vec{X: ax.X[len(ax.X)-1], Y: ax.Y[len(ax.Y)-1], Z: ax.Z[len(ax.Z)-1]}
+		checkMesh(rec, t, func(key, msg string) {
+			rec.Violation(t, key, "%s renderer, %d cells, %s in its own bounding box: %s", r.name, cells, desc, msg)
+		}, r.name, ts, step, true, lo, hi)
+		whole := 0
+		for _, q := range []float64{sz.X / h, sz.Y / h, sz.Z / h} {
+			if math.Abs(q-math.Round(q)) < 1e-9 {
+				whole++
+			}
+		}
+		rec.Case(len(ts) > 0, ev.Key(r.name, cells, desc), "flush:"+r.name, fmt.Sprintf("flush:axes-with-a-whole-number-of-cells=%d", whole))
+		rec.Sample("flush:"+r.name, map[string]any{"renderer": r.name, "cells": cells, "solid": desc, "triangles": len(ts)})
 	})
 }
 
